@@ -75,7 +75,8 @@ func build(tag string, race bool) *buildOut {
 		trouble("mkdir %s: %v", dir, err)
 	}
 	vin := filepath.Join(verifRoot, "bin", "vinstr")
-	cmd := exec.Command(vin, "-repo", repoRoot, "-out", dir, "-sim", filepath.Join(verifRoot, "sim"), "-q")
+	cmd := exec.Command(vin, "-repo", repoRoot, "-out", dir, "-sim", filepath.Join(verifRoot, "sim"), "-cache", filepath.Join(verifRoot, "build", "cache"), "-q")
+	cmd.Env = goEnv()
 	cmd.Stderr = os.Stderr
 	if err := cmd.Run(); err != nil {
 		trouble("vinstr failed: %v", err)
